@@ -266,7 +266,7 @@ func (p *Prov) of(v ssa.Value, depth int, seen map[ssa.Value]bool) string {
 			s := p.of(e, depth, seen)
 			if strings.Contains(s, "<loop>") {
 				loop = true
-				continue
+				s = strings.ReplaceAll(s, "<loop>", "@")
 			}
 			parts = append(parts, s)
 		}
@@ -284,6 +284,11 @@ func (p *Prov) of(v ssa.Value, depth int, seen map[ssa.Value]bool) string {
 	case *ssa.IndexAddr:
 		return "&" + p.of(v.X, depth, seen) + "[" + p.of(v.Index, depth, seen) + "]"
 	case *ssa.Slice:
+		if a, ok := v.X.(*ssa.Alloc); ok {
+			if arr, ok := a.Type().Underlying().(*types.Pointer).Elem().Underlying().(*types.Array); ok && arr.Len() == 0 {
+				return "make(slice)" // make([]T, 0) with constant length
+			}
+		}
 		if a, ok := v.X.(*ssa.Alloc); ok && v.Low == nil && v.High == nil {
 			// slice literal / variadic argument array: list the stored elements
 			elems := map[int64]string{}
@@ -362,7 +367,7 @@ func shortQual(p *types.Package) string { return p.Name() }
 type BuilderChain struct {
 	Fn      *ssa.Function
 	Build   *ssa.Call
-	Builder string               // e.g. "mem.ReadReqBuilder"
+	Builder string                 // e.g. "mem.ReadReqBuilder"
 	Setters map[string][]ssa.Value // method name -> args (last call wins)
 	Order   []string
 }
